@@ -89,6 +89,14 @@ const PRELUDE: &str = r#"
 (define (g-t-closure n) (let lp ((i 0)) (when (< i n) (make-t-closure) (lp (+ i 1)))))
 (define (g-t-thread n k) (thread-join! (spawn-native-thread (lambda () (g-t-ring n k) (g-t-acyclic n) (g-t-closure n) 0))))
 (define (g-t-thread-result n k) (let lp ((i 0)) (when (< i n) (thread-join! (spawn-native-thread (lambda () (make-t-ring k)))) (lp (+ i 1)))))
+(define (g-t-handoff n)
+  (let lp ((i 0))
+    (when (< i n)
+      (let* ((r (list (make-tracker) (list (make-tracker)))) (bx (box r)))
+        (thread-join! (spawn-native-thread (lambda () (let ((n (length (unbox bx)))) (set-box! bx #f) n))))
+        (box i) (mutable-vector i)
+        (length r))
+      (lp (+ i 1)))))
 (define (g-t-channel n) (let ((ch (channels/new))) (let lp ((i 0)) (when (< i n) (channel/send (channels-sender ch) (box (make-tracker))) (lp (+ i 1))))))
 (define (keep-add! x) (set! keep (cons (box x) keep)))
 (define (keep-drop!) (when (not (null? keep)) (set! keep (cdr keep))))
@@ -96,7 +104,7 @@ const PRELUDE: &str = r#"
 "#;
 
 const KINDS: &[&str] = &[
-    "acyclic", "self", "ring", "mixed", "closure", "continuation", "handler", "shadowed", "t-acyclic", "t-ring", "t-closure", "t-rooted", "t-pair", "t-thread", "t-thread-result", "t-channel",
+    "acyclic", "self", "ring", "mixed", "closure", "continuation", "handler", "shadowed", "t-acyclic", "t-ring", "t-closure", "t-rooted", "t-pair", "t-thread", "t-thread-result", "t-channel", "t-handoff",
 ];
 
 fn gen_workload(rng: &mut Rng, thorough: bool) -> Value {
@@ -160,6 +168,7 @@ fn render(op: &Value, uid: &mut u64) -> String {
         "t-thread" => format!("(g-t-thread {} {})", n.min(30), r),
         "t-thread-result" => format!("(g-t-thread-result {} {})", n.min(3), r),
         "t-channel" => format!("(g-t-channel {})", n.min(300)),
+        "t-handoff" => format!("(g-t-handoff {})", n.min(6)),
         "t-pair" => {
             // a shadowed global that is referenced only by the code of another
             // shadowed global; each pair is redefined in its own evaluation
